@@ -92,6 +92,8 @@ SCHED_TARGETS = [
 ]
 MAX_DEPTH = 6
 P_USE = 0.2          # a use of an enclosing block's yielded object per statement
+P_EVENT = 0.12       # an event (scopes.EVENTS) per statement
+P_EARLY = 0.3        # the scope object of a `with` is created ahead of the statement
 
 
 class _Abort(BaseException):
@@ -134,8 +136,44 @@ def gen_program(rng, spec, disabled=()):
   names = available(spec, disabled)
   budget = [rng.randint(5, 24)]
   target = rng.choice([1, 2, 2, 3, 3, 4, 4, 5, 6, 6])
+  ids = [0]
+  events = sorted(n for n, e in S.EVENTS.items()
+                  if e.mgr not in disabled and (e.scope != 'process' or spec.process_ok))
 
-  def gen_with(depth, state, stack):
+  def place_creation(node, outs):
+    """Puts the statement that creates the scope object of `node` somewhere
+    before the `with` statement: at the very start of the program, at the
+    current end of an enclosing block (i.e. before the chain of blocks that
+    leads here is entered), or inside a block / try that has been completed
+    already (the object is created under settings that are gone when it is
+    entered)."""
+    create = {'k': 'create', 'id': node['id'], 'm': node['m']}
+    r = rng.random()
+    if r < 0.15:
+      outs[0].insert(0, create)
+      node['early'] = 'program-start'
+      return
+    if r < 0.45:
+      rng.choice(outs).append(create)
+      node['early'] = 'enclosing-block'
+      return
+    # inside a completed statement of an enclosing block
+    cands = [x for o in outs for x in o if x['k'] in ('with', 'try')]
+    if not cands:
+      rng.choice(outs).append(create)
+      node['early'] = 'enclosing-block'
+      return
+    body = rng.choice(cands)['body']
+    while True:
+      deeper = [x for x in body if x['k'] in ('with', 'try')]
+      if not deeper or rng.random() < 0.5:
+        break
+      body = rng.choice(deeper)['body']
+    stop = next((k for k, x in enumerate(body) if x['k'] == 'raise'), len(body))
+    body.insert(rng.randint(0, stop), create)
+    node['early'] = 'left-block'
+
+  def gen_with(depth, state, stack, outs):
     for _ in range(8):
       # The nesting rule of a manager only shows when it is nested in itself
       # (or in the manager it shares its setting with).
@@ -160,11 +198,22 @@ def gen_program(rng, spec, disabled=()):
       name, m = 'notify_on_change', S.MANAGERS['notify_on_change']
       args = m.gen(rng, spec, state)
     inner = state
+    ids[0] += 1
+    node = {'k': 'with', 'm': name, 'a': args, 'body': None, 'id': ids[0],
+            'heavy': rng.random() < 0.1}
     if m.enter(state, args, spec) == 'no':
       inner = m.push(state, args, spec)
-    body = block(depth + 1, inner, stack + [name])
-    return {'k': 'with', 'm': name, 'a': args, 'body': body,
-            'heavy': rng.random() < 0.1}
+      if rng.random() < P_EARLY:
+        place_creation(node, outs)
+    node['body'] = block(depth + 1, inner, stack + [name], outs)
+    return node
+
+  def gen_event(stack):
+    # an event of a manager the statement is inside of, or any event
+    near = [n for n in events if any(f in stack for f in S.EVENTS[n].focus)
+            or (n == 'wrapped-init-raises' and 'detour' in stack)]
+    return {'k': 'event', 'e': rng.choice(near if near and rng.random() < 0.7
+                                          else events)}
 
   def gen_use(stack):
     # the object yielded by any enclosing block, used as documented
@@ -172,20 +221,23 @@ def gen_program(rng, spec, disabled=()):
     return {'k': 'use', 'level': level, 'm': stack[level],
             'u': rng.choice(S.USES[stack[level]]).name}
 
-  def block(depth, state, stack):
+  def block(depth, state, stack, outs):
     out = []
+    outs = outs + [out]
     n = rng.randint(1, 3)
     for j in range(n):
       if budget[0] <= 0:
         break
       if any(x in S.USES for x in stack) and rng.random() < P_USE:
         out.append(gen_use(stack))      # (does not count against the budget)
+      if events and rng.random() < P_EVENT:
+        out.append(gen_event(stack))    # (neither)
       budget[0] -= 1
       r = rng.random()
       if depth < MAX_DEPTH and (r < 0.58 or (j == 0 and depth < target)):
-        out.append(gen_with(depth, state, stack))
+        out.append(gen_with(depth, state, stack, outs))
       elif r < 0.70:
-        body = block(depth, state, stack) if budget[0] > 0 else []
+        body = block(depth, state, stack, outs) if budget[0] > 0 else []
         if body and not (len(body) == 1 and body[0]['k'] == 'try'):
           out.append({'k': 'try', 'catch': rng.choice(['E1', 'E2', 'any', 'any']),
                       'body': body})
@@ -206,7 +258,24 @@ def gen_program(rng, spec, disabled=()):
         out.append({'k': 'obs'})
     return out
 
-  return block(0, S.default_state(), [])
+  program = block(0, S.default_state(), [], [])
+
+  # (a generated statement can be dropped with the block it is in: drop the
+  # creation statements of scope objects that are never entered by the program)
+  def with_ids(ns):
+    for n in ns:
+      if n['k'] == 'with':
+        yield n['id']
+      yield from with_ids(n.get('body', ()))
+  present = set(with_ids(program))
+
+  def prune(ns):
+    ns[:] = [n for n in ns if n['k'] != 'create' or n['id'] in present]
+    for n in ns:
+      if 'body' in n:
+        prune(n['body'])
+  prune(program)
+  return program
 
 
 def show(nodes, indent=0):
@@ -214,7 +283,8 @@ def show(nodes, indent=0):
   pad = '  ' * indent
   for n in nodes:
     if n['k'] == 'with':
-      out.append(f"{pad}with {n['m']}({n['a']}):")
+      early = f"   # scope object cm{n['id']} ({n['early']})" if n.get('early') else ''
+      out.append(f"{pad}with {n['m']}({n['a']}):{early}")
       out.extend(show(n['body'], indent + 1) or [pad + '  pass'])
     elif n['k'] == 'try':
       out.append(f'{pad}try:')
@@ -226,6 +296,10 @@ def show(nodes, indent=0):
       out.append(f"{pad}use {n['u']} of y bound by {n['m']} (block level {n['level']})")
     elif n['k'] == 'view-call':
       out.append(f"{pad}pg.view(1, view_id=<probe view>, **{n['a']['kw']})")
+    elif n['k'] == 'create':
+      out.append(f"{pad}cm{n['id']} = {n['m']}(...)   # entered later")
+    elif n['k'] == 'event':
+      out.append(f"{pad}event {n['e']} (caught here)")
     else:
       out.append(pad + n['k'])
   return out
@@ -261,13 +335,17 @@ class Exec:
     self.managers_entered = set()
     self.had_thread_de = False      # a per-thread dynamic_evaluate block was left
     self.deaf_reported = False
+    self.created_note = ''
+    self.withs = {}                 # id -> `with` node of the program
+    self.cms = {}                   # id -> (scope object created ahead, exit token, where)
 
   # -- observation -------------------------------------------------------------
   def snapshot(self, full, fresh=False, focus=None):
     env, st = self.env, self.state
     snap = {}
+    foci = focus if isinstance(focus, tuple) else (focus,)
     for o in S.OBSERVERS:
-      if o.name in self.muted or not S.applicable(o, env, full, focus):
+      if o.name in self.muted or not any(S.applicable(o, env, full, f) for f in foci):
         continue
       if o.mgr.split('[')[0] in self.muted_mgrs:
         continue
@@ -287,6 +365,12 @@ class Exec:
         self.counters['fresh_thread_process_views'] += 1
     return snap
 
+  def setting_muted(self, mname):
+    """Was a violation on the setting of manager `mname` reported already?"""
+    mgrs = {'detour', 'apply_wrappers'} if mname in ('detour', 'apply_wrappers') else {mname}
+    return any(S.OBS_BY_NAME[k].mgr.split('[')[0] in mgrs
+               for k in self.muted if k in S.OBS_BY_NAME)
+
   def report(self, clause, mech, detail):
     self.violations.append((clause, mech, detail + '\n  at: ' + ' > '.join(self.path)))
 
@@ -294,8 +378,11 @@ class Exec:
     st = self.state
     return st['de_tls'] == S.NOSCOPE and self.env.process_ok
 
-  def check_model(self, snap, clause):
-    """Compares the observers with the nesting model of the current state."""
+  def check_model(self, snap, clause, via=None):
+    """Compares the observers with the nesting model of the current state.
+
+    via: the event (scopes.EVENTS) that happened since the previous, passing
+    comparison of the same observers."""
     env, st = self.env, self.state
     bad = collections.OrderedDict()
     other_in_scope = (self.shared is not None and any(
@@ -334,6 +421,9 @@ class Exec:
       if mgr == 'dynamic_evaluate':
         label = next((p for p in reversed(self.path)
                       if p.startswith('dynamic_evaluate')), mgr)
+      if via:
+        label = f'{label}@after:{via}'
+        detail = f'after the event {via} (exceptions caught inside the block): ' + detail
       self.report(clause if self.path else 'default-state', label, detail)
       for n, _, _ in items:
         self.muted.add(n)
@@ -341,6 +431,13 @@ class Exec:
   # -- program interpreter -----------------------------------------------------
   def run(self, nodes, full=True):
     """Runs a whole program; returns how it ended."""
+    def index(ns):
+      for n in ns:
+        if n['k'] == 'with':
+          self.withs[n['id']] = n
+        if 'body' in n:
+          index(n['body'])
+    index(nodes)
     snap = self.snapshot(full)
     self.check_model(snap, 'default-state')
     try:
@@ -376,6 +473,10 @@ class Exec:
         self.run_use(n)
       elif k == 'view-call':
         self.run_view_call(n)
+      elif k == 'create':
+        self.run_create(n)
+      elif k == 'event':
+        self.run_event(n)
       elif k == 'spawn':
         self.spawn_check()
       elif k == 'propagate':
@@ -396,6 +497,62 @@ class Exec:
         raise
       self.report('unexpected-exception', f'{label}.use:{use.name}',
                   f'{use.name} of the object yielded by {mname} raised {e!r}')
+
+  def run_create(self, n):
+    """Creates the scope object of a later `with` statement now (a scope
+    object stored / returned by a helper and entered elsewhere).  Creating it
+    is not documented to have any effect: the model state is unchanged and the
+    statement that enters it is judged as any other."""
+    w = self.withs[n['id']]
+    m = S.MANAGERS[w['m']]
+    if w['m'] in self.muted_mgrs or n['id'] in self.cms:
+      return
+    env = self.env
+    env.exit_token = None
+    self.counters['scopes_created_early'] += 1
+    self.counters['created_early:' + w['m']] += 1
+    try:
+      cm = m.make(w['a'], env)
+    except Exception as e:  # pylint: disable=broad-except
+      if _passthrough(e):
+        raise
+      self.report('unexpected-exception', w['m'] + '.create',
+                  f'creating {w["m"]}({w["a"]}) (not entered yet) raised {e!r}')
+      return
+    self.cms[n['id']] = (cm, env.exit_token, ' > '.join(self.path) or '<top level>')
+
+  def run_event(self, n):
+    """User code the library dispatches to raises; the program catches it here.
+    Every setting must be as effective afterwards as it was before."""
+    ev = S.EVENTS[n['e']]
+    if ev.mgr in self.muted_mgrs:
+      return
+    before = self.snapshot(False, False, ev.focus)
+    self.check_model(before, 'effective-inside')
+    self.counters['events'] += 1
+    self.counters['event:' + ev.name] += 1
+    self.shape.append(('event', ev.name))
+    outcomes = ev.apply(self.env)
+    raised = sum(1 for r in outcomes if r[0] == 'raise')
+    self.counters['event_calls'] += len(outcomes)
+    self.counters['event_calls_raised'] += raised
+    if raised:
+      self.counters['events_raised'] += 1
+    self.hook()
+    after = self.snapshot(False, False, ev.focus)
+    self.check_model(after, 'effective-inside', via=ev.name)
+    # (model-free, covers the observers whose expectation is a don't-care)
+    by_mgr = collections.OrderedDict()
+    for k in before:
+      if k in after and before[k] != after[k] and k not in self.muted:
+        by_mgr.setdefault(S.OBS_BY_NAME[k].mgr, []).append((k, before[k], after[k]))
+    for mgr, items in by_mgr.items():
+      self.report('effective-inside' if self.path else 'default-state',
+                  f'{mgr}@after:{ev.name}',
+                  f'the event {ev.name} (exceptions caught inside the block) changed ' +
+                  '; '.join(f'{k}: before {b!r}, after {a!r}' for k, b, a in items))
+      for k, _, _ in items:
+        self.muted.add(k)
 
   def run_view_call(self, n):
     """`pg.view(value, **kwargs)`: the per-call options are effective for the
@@ -458,9 +615,16 @@ class Exec:
     env.exit_exc = None
     env.exit_token = None
     depth = len(self.path) + 1
+    created_at = None
     try:
-      cm = m.make(args, env)
-      exit_token = env.exit_token
+      if n['id'] in self.cms:
+        # created ahead of the statement (possibly under other settings)
+        cm, exit_token, created_at = self.cms.pop(n['id'])
+        self.counters['scopes_entered_late'] += 1
+        self.counters['entered_late:' + n.get('early', '?')] += 1
+      else:
+        cm = m.make(args, env)
+        exit_token = env.exit_token
       with cm as y:
         entered = True
         self.state = m.push(saved, args, env)
@@ -483,7 +647,7 @@ class Exec:
         self.hook()
         inside = self.snapshot(heavy, False, n['m'])
         exp_y = m.yielded(self.state, args, env)
-        if exp_y != S.DONTCARE:
+        if exp_y != S.DONTCARE and not self.setting_muted(n['m']):
           self.counters['yield_checks'] += 1
           got_y = S.canon_yield(n['m'], y)
           if got_y != exp_y:
@@ -514,7 +678,10 @@ class Exec:
     after = self.snapshot(heavy, fresh, n['m'])
     exit_kind = ('enter-raised' if not entered else
                  'exception' if body_exc is not None else 'normal')
-    self.shape.append((label, exit_kind))
+    self.shape.append((label, exit_kind) if created_at is None
+                      else (label, exit_kind, n.get('early')))
+    self.created_note = '' if created_at is None else (
+        f' [the scope object was created ahead of the statement, at: {created_at}]')
 
     # exception flow
     reraise = None
@@ -611,7 +778,7 @@ class Exec:
       merged = [it for items in by_mgr.values() for it in items]
       by_mgr = collections.OrderedDict([(own, merged)])
     for mgr, items in by_mgr.items():
-      detail = (f'`with {n["m"]}({n["a"]})` left by {exit_kind}: ' +
+      detail = (f'`with {n["m"]}({n["a"]})`{self.created_note} left by {exit_kind}: ' +
                 '; '.join(f'{k}: before {b!r}, after {a!r}' for k, b, a in items))
       mech = label + suffix if is_own(mgr) else f'{label}{suffix}>{mgr}'
       self.report('restore', mech, detail)
